@@ -91,34 +91,36 @@ OFFICE = {
 SITES = {"caltech": CALTECH, "jpl": JPL, "office": OFFICE}
 
 
-def build(site, basic, factor):
+def build(site, basic, factor, voltage=208):
+    # `voltage` is the EVSE voltage argument of the site factories; their docstrings say it "does not affect the
+    # current rating of the transformer, which is based on nominal voltages in the network"
     with warnings.catch_warnings():
         warnings.simplefilter("ignore")
         if site == "caltech":
-            return sites.caltech_acn(basic_evse=basic, transformer_cap=150 * factor)
+            return sites.caltech_acn(basic_evse=basic, transformer_cap=150 * factor, voltage=voltage)
         if site == "jpl":
-            return sites.jpl_acn(basic_evse=basic, first_transformer_cap=45 * factor, third_fourth_transformer_cap=150 * factor)
+            return sites.jpl_acn(basic_evse=basic, first_transformer_cap=45 * factor, third_fourth_transformer_cap=150 * factor, voltage=voltage)
         if site == "office":
-            return sites.office001_acn(basic_evse=basic, transformer_cap=50 * factor)
+            return sites.office001_acn(basic_evse=basic, transformer_cap=50 * factor, voltage=voltage)
     raise ValueError(site)
 
 
 def bounds(tier, seed):
-    return {"levels": [0, 0.5, 1] if tier == "quick" else [0, 0.25, 0.5, 0.75, 1], "lambdas": [0.25, 0.5, 0.75, 1.0], "bisection_steps": 50, "factors": [0.5, 1, 2], "evse_types": ["basic", "real"]}
+    return {"levels": [0, 0.5, 1] if tier == "quick" else [0, 0.25, 0.5, 0.75, 1], "lambdas": [0.25, 0.5, 0.75, 1.0], "bisection_steps": 50, "factors": [0.5, 1, 2], "evse_types": ["basic", "real"], "evse_voltage_argument": [208, 200, 240]}
 
 
 def space(tier, seed):
     items = []
     for site in SITES:
-        for basic in (True, False):
-            for f in (1, 0.5, 2):
+        for basic, f, volt in [(b, f, 208) for b in (True, False) for f in (1, 0.5, 2)] + [(True, 1, 200), (False, 1, 240)]:
+            if True:
                 spec = SITES[site]
                 trs = sorted(spec["transformers"])
                 for tr in trs + (["joint"] if len(trs) > 1 else []):
                     nact = len(spec["classes"]) if tr == "joint" else sum(1 for c in spec["classes"].values() if c[1] == tr)
                     nch = 1 if nact <= 3 else (4 if nact <= 6 else 16)
                     for ch in range(nch):
-                        items.append({"site": site, "basic": basic, "factor": f, "tr": tr, "tier": tier, "chunk": [ch, nch]})
+                        items.append({"site": site, "basic": basic, "factor": f, "tr": tr, "tier": tier, "chunk": [ch, nch], "voltage": volt})
     items.append({"site": "simple", "basic": True, "factor": 1, "tr": "agg", "tier": tier})
     return items
 
@@ -229,7 +231,7 @@ def execute(item, only=None):
         return execute_simple(item, rep, viol, stats)
     spec = SITES[item["site"]]
     b = bounds(item["tier"], 0)
-    net = build(item["site"], item["basic"], item["factor"])
+    net = build(item["site"], item["basic"], item["factor"], item.get("voltage", 208))
     ids = list(net.station_ids)
     idx = {s: i for i, s in enumerate(ids)}
     if (item.get("chunk") or [0, 1])[0] != 0 and only is None:
@@ -347,7 +349,7 @@ def run(item):
     for o in st["out"]:
         acc.outcome(o)
     for n in st["nt"]:
-        acc.nt((item["site"], item["basic"], item["factor"], n))
+        acc.nt((item["site"], item["basic"], item["factor"], item.get("voltage", 208), n))
     for sig, what, o, e, ctx in viol:
         acc.violation(sig, what, dict(item, only=ctx), o, e)
     acc.sample({k: item[k] for k in ("site", "basic", "factor", "tr")}, cap=3)
@@ -357,5 +359,6 @@ def run(item):
 def replay(scn):
     item = {k: scn[k] for k in ("site", "basic", "factor", "tr", "tier")}
     item["chunk"] = [0, 1]
+    item["voltage"] = scn.get("voltage", 208)
     viol, _ = execute(item, only=scn.get("only"))
     return [{"signature": v[0], "what": v[1], "observed": v[2], "expected": v[3]} for v in viol]
